@@ -282,8 +282,11 @@ def c06 (p : Panel) (a : List String) (evs : List Ev) (before after : Ctrl) : Li
   match opWin a with
   | none => []
   | some (x, y, w, h) =>
-    let targets := partTargets p.name (opName a)
     let eps := newEpis before after
+    -- `clear_partial_frame` has no buffer: every plane it writes is judged on window and outside
+    let targets := if opName a == "pclear" then (eps.map (·.plane)).eraseDups.map (fun pl => (⟨pl, .id, 99⟩ : Target))
+      else partTargets p.name (opName a)
+    let winTag := s!" win={x},{y},{w},{h}"
     let wbw := w / 8
     -- (i) window registers as they were when the window's data arrived
     let r0 := targets.flatMap fun t =>
@@ -292,12 +295,22 @@ def c06 (p : Panel) (a : List String) (evs : List Ev) (before after : Ctrl) : Li
       | some e =>
         let (x0, y0, x1, y1) := e.win
         if (x0, y0, x1, y1) = (x, y, x + w - 1, y + h - 1) then [] else
-          [s!"site={site} reason=window-regs got=({x0},{y0},{x1},{y1}) want=({x},{y},{x + w - 1},{y + h - 1})"]
+          [s!"site={site} reason=window-regs got=({x0},{y0},{x1},{y1}) want=({x},{y},{x + w - 1},{y + h - 1}){winTag}"]
     -- (iv) window parameters sent as parameters of the window command, no stray data
     let blocks := opBlocks evs
     let r4 := (blocks.filterMap fun b => match b with
-      | .stray bs => some s!"site={site} reason=stray-window-bytes got={bs.length}bytes-before-any-command want=0"
+      | .stray bs => some s!"site={site} reason=stray-window-bytes got={bs.length}bytes-before-any-command want=0{winTag}"
       | _ => none)
+    -- a windowed fill without a buffer: everything outside the window unchanged
+    let r5 := if opName a ≠ "pclear" then [] else targets.flatMap fun t =>
+      let wb := (p.width + 7) / 8
+      let out := (List.range p.height).findSome? fun r => (List.range wb).findSome? fun col =>
+        if (y ≤ r ∧ r < y + h ∧ x / 8 ≤ col ∧ col < x / 8 + wbw) then none
+        else if planeAt after t.plane (rowMap p.name r) col = planeAt before t.plane (rowMap p.name r) col then none
+        else some (r, col)
+      match out with
+      | none => []
+      | some (r, col) => [s!"site={site} reason=outside-changed got=plane{t.plane}@({col},{r}) want=unchanged{winTag}"]
     let r1 := targets.flatMap fun t =>
       match opBuf a t.arg with
       | none => []
@@ -306,15 +319,15 @@ def c06 (p : Panel) (a : List String) (evs : List Ev) (before after : Ctrl) : Li
         let pe := eps.filter (·.plane == t.plane)
         let once := match pe with
           | [e] => if e.count = img.size ∧ e.stored = img.size then [] else
-              [s!"site={site} reason=stray-window-bytes got=plane{t.plane}:{e.count}received/{e.stored}stored want={img.size}"]
-          | _ => [s!"site={site} reason=window-not-filled-once got=plane{t.plane}:{pe.length}episodes want=1"]
+              [s!"site={site} reason=stray-window-bytes got=plane{t.plane}:{e.count}received/{e.stored}stored want={img.size}{winTag}"]
+          | _ => [s!"site={site} reason=window-not-filled-once got=plane{t.plane}:{pe.length}episodes want=1{winTag}"]
         -- (ii) content of the window
         let bad := (List.range h).findSome? fun r => (List.range wbw).findSome? fun col =>
           if planeAt after t.plane (rowMap p.name (y + r)) (x / 8 + col) = img.getD (r * wbw + col) 0 then none
           else some (r, col)
         let content := match bad with
           | none => []
-          | some (r, col) => [s!"site={site} reason=window-content got=plane{t.plane}@({x / 8 + col},{y + r})={hexByte (planeAt after t.plane (rowMap p.name (y + r)) (x / 8 + col))} want={hexByte (img.getD (r * wbw + col) 0)}"]
+          | some (r, col) => [s!"site={site} reason=window-content got=plane{t.plane}@({x / 8 + col},{y + r})={hexByte (planeAt after t.plane (rowMap p.name (y + r)) (x / 8 + col))} want={hexByte (img.getD (r * wbw + col) 0)}{winTag}"]
         -- (iii) outside the window unchanged
         let wb := (p.width + 7) / 8
         let out := (List.range p.height).findSome? fun r => (List.range wb).findSome? fun col =>
@@ -323,9 +336,9 @@ def c06 (p : Panel) (a : List String) (evs : List Ev) (before after : Ctrl) : Li
           else some (r, col)
         let outside := match out with
           | none => []
-          | some (r, col) => [s!"site={site} reason=outside-changed got=plane{t.plane}@({col},{r}) want=unchanged"]
+          | some (r, col) => [s!"site={site} reason=outside-changed got=plane{t.plane}@({col},{r}) want=unchanged{winTag}"]
         once ++ content ++ outside
-    r0 ++ r4 ++ r1
+    r0 ++ r4 ++ r1 ++ r5
 
 /-! ## C07 — clear_frame -/
 
